@@ -2284,6 +2284,52 @@ fn scenario_readd(ses: &mut Session, sut: &mut S, rng: &mut Rng, idx: u64, table
     ses.end_case();
 }
 
+/// Third-stage cap (seeded C03-8): a three-stage tiered whitelist whose LAST stage has a mint-count limit of 2, no mint at all in
+/// stages 1 and 2, then four different members mint once each in stage 3 — exactly two may succeed. (A minter that keeps the
+/// stage-3 running total in the wrong item never reaches the cap when the earlier stages saw few mints.)
+fn scenario_stage3cap(ses: &mut Session, sut: &mut S, rng: &mut Rng, idx: u64, table: &BTreeMap<(usize, usize), u64>) {
+    let cands: Vec<(MinterKind, WlKind)> = ALL_MINTERS[..C03_MINTERS]
+        .iter()
+        .flat_map(|mk| [WlKind::Tiered, WlKind::TieredFlex, WlKind::TieredMerkle].into_iter().filter(move |wk| level(table, *mk, *wk) == 2).map(move |wk| (*mk, wk)))
+        .collect();
+    if cands.is_empty() {
+        return;
+    }
+    let (mk, wk) = cands[(idx as usize) % cands.len()];
+    let t0 = GENESIS + 1_000_000_000 + rng.below(1000) * U;
+    ses.begin_case(sut, &format!("case t0={t0} addrs={},{} sc=stage3cap{idx} mk={}", ADMIN, fmt_list(&BUYERS), mk.name()));
+    let cnt = if is_flex_wl(wk) || is_merkle_wl(wk) { 2 } else { 0 };
+    let all: Vec<(u64, u32)> = BUYERS.iter().map(|b| (*b, cnt)).collect();
+    let (s0, s1, s2, e2) = (t0 + 10 * U, t0 + 14 * U, t0 + 18 * U, t0 + 24 * U);
+    let stages = vec![
+        StageSpec { start: s0, end: s1, pal: 2, mcl: None, members: all.clone() },
+        StageSpec { start: s1, end: s2, pal: 2, mcl: Some(3), members: all.clone() },
+        StageSpec { start: s2, end: e2, pal: 2, mcl: Some(2), members: all.clone() },
+    ];
+    let ls = wk == WlKind::TieredMerkle && idx % 2 == 1;
+    let wp = WlPlan { id: 0, kind: wk, stages: stages.clone(), ls, dk: false, pad: 0 };
+    ses.step(sut, &newwl_line(&wp, 20, 60_000_000));
+    let start = e2 + rng.range(0, 3) * U;
+    let end = if mk.is_open_edition() { Some(start + 40 * U) } else { None };
+    let o = ses.step(sut, &format!("create mk={} wl=0 lim=3 ntok=20 maxpal=5 admin={ADMIN} start={start} end={}", mk.idx(), fmt_opt(&end)));
+    if !o.starts_with("ok") {
+        ses.mark(format!("stage3cap:{}:{:?}:create-refused", mk.name(), wk));
+        ses.end_case();
+        return;
+    }
+    let plan = Plan { mk, wls: vec![wp], start, end, maxpal: 5, instants: vec![start] };
+    ses.step(sut, &format!("t {}", s2 + 1 + rng.below(3)));
+    let before = sut.mon.wl_mints.values().sum::<u64>();
+    let mut order = BUYERS.to_vec();
+    if rng.chance(1, 2) { order.reverse(); }
+    for b in order {
+        gen_mint_as(ses, sut, rng, &plan, b);
+    }
+    let got = sut.mon.wl_mints.values().sum::<u64>() - before;
+    ses.mark(format!("stage3cap:{}:{:?}:{got}", mk.name(), wk));
+    ses.end_case();
+}
+
 /// F-C03 regression corpus: a Merkle minter wired to a plain whitelist, member limit 1, self-declared allocation 5
 fn corpus_self_raise(ses: &mut Session, sut: &mut S, mk: MinterKind, wk: WlKind) {
     let t0 = GENESIS + 1_000_000_000;
@@ -2379,6 +2425,11 @@ fn main() {
     for i in 0..2 * n_pairs * ses.scale(1, 6) {
         scenario_readd(&mut ses, &mut sut, &mut rng, i, &table);
     }
+    // every (minter, tiered whitelist) pairing that can mint: the cap of the THIRD stage after quiet first and second stages
+    let n_tpairs = ALL_MINTERS[..C03_MINTERS].iter().map(|mk| [WlKind::Tiered, WlKind::TieredFlex, WlKind::TieredMerkle].iter().filter(|wk| level(&table, *mk, **wk) == 2).count() as u64).sum::<u64>();
+    for i in 0..n_tpairs * ses.scale(1, 4) {
+        scenario_stage3cap(&mut ses, &mut sut, &mut rng, i, &table);
+    }
     let n = ses.scale(300, 8000);
     for i in 0..n {
         scenario(&mut ses, &mut sut, &mut rng, i, &table);
@@ -2402,6 +2453,8 @@ fn main() {
                     ses.require(format!("req:stage:reject-full:{name}:{:?}", wk));
                     ses.require(format!("req:stage:accept-last:{name}:{:?}", wk));
                     ses.require(format!("handover:edge:{name}:{:?}:at", wk));
+                    // the third stage's mint-count limit of 2 admits exactly two of four members after quiet earlier stages
+                    ses.require(format!("stage3cap:{name}:{:?}:2", wk));
                     if !is_merkle_wl(wk) {
                         // stage removed and re-added with a re-planned list: the re-planned buyer gets exactly the new
                         // entitlement, the dropped buyer and the other stage's member nothing
